@@ -63,7 +63,7 @@ class CallGraph:
         for im in db.impls:
             a = im.get("self_adt")
             tr = im.get("trait")
-            if a and tr:
+            if a and tr and a in db.adts:
                 self.adt_impls.setdefault(a, []).append((tr, [m["id"] for m in im["methods"]]))
         for fid, fn in db.fns.items():
             self._scan(fid, fn)
@@ -150,6 +150,8 @@ class CallGraph:
             tgt = k.get("fnr") or k["fn"]
             if tgt in self.db.fns:
                 self._add(fid, tgt, b, "reify")
+            elif k.get("fnr") and k["fnr"] != k["fn"]:
+                pass  # resolved to an implementation outside the workspace
             else:
                 for mid, _ in self.db.impl_methods.get(k["fn"], []):
                     if mid in self.db.fns:
